@@ -34,6 +34,27 @@ CLAIMS = {
         note="trusts clang AST/CFG and the extractor; exceptions are the only failure channel; value conversion "
              "itself (boost::lexical_cast) and regex/file-system check semantics are not decided",
         technique="static analysis: CFG must-pass-through / dominance / sibling agreement over resolved calls"),
+    "C03": dict(
+        level="other", engine="engine A (cfg.py)",
+        text="Three structural necessary conditions of 'no false rejection', each for all inputs: exact-match-wins "
+             "shape of ArgumentContainer::findArg (no exit from the search loop before every argument was compared "
+             "exactly), accept-side truth tables of all bound checks/cardinalities over every ordering (Engine B), "
+             "abstract evaluation of the ignore_cardinality argument for every read mode plus RAII read-mode flags "
+             "alive around iterateArguments, canonical key for constraint matching. The general statement is not "
+             "decidable statically and is not claimed.",
+        note="trusts clang AST/CFG; boost::lexical_cast converts every representable value; interaction of arbitrary "
+             "checks/formats/constraints is not decided", also=("engine B (boolshape.py)",),
+        technique="static analysis: CFG loop-exit shape rule + exhaustive truth tables over orderings"),
+    "C05": dict(
+        level="other", engine="engine A (cfg.py)",
+        text="Add-time refusal and lookup structure decided on the CFG of every Storage<>::addArgument instantiation "
+             "and of ArgumentContainer::findArg (per-iteration must-pass-through of == and mismatch(), positive "
+             "comparison ends in throw, store unreachable without the loop, exact match wins regardless of order, "
+             "prefix match only with abbreviations enabled, ambiguity throws) plus exhaustive truth tables of "
+             "ArgumentKey::operator== / mismatch() over all combinations of empty/equal/different short and long keys.",
+        note="trusts clang AST/CFG; parsing of key specification strings is not decided",
+        also=("engine B (boolshape.py)",),
+        technique="static analysis: CFG path rules + exhaustive truth table of the key algebra"),
     "C08": dict(
         level="other", engine="engine A (cfg.py)",
         text="Sibling agreement between group evaluation and stand-alone evaluation: per-member must-pass-through "
